@@ -204,6 +204,8 @@ def _getStepAndCycleLengths(cs):
                         / cycle["burn steps"]
                     ]
                     * cycle["burn steps"]
+                    if cycle["burn steps"]
+                    else []
                 )
             else:
                 raise ValueError(
